@@ -171,14 +171,14 @@ fn first_line(s: &str) -> String {
 
 /// Attribute a mismatch to known defect classes (see `triage`): returns the class names whose
 /// neutralising rewrite — alone, or cumulatively in order — makes the design agree again.
-fn attribute(d: &Design, stim: &Stimulus, cfg: &str, codes: &[String]) -> Vec<String> {
+fn attribute(d: &Design, stim: &Stimulus, cfg: &str, codes: &[String], fault: bool) -> Vec<String> {
     let Some((c, r)) = cfg.split_once('/') else { return vec![] };
     let rerun = |text: &str| -> bool {
         let mut d2 = d.clone();
         d2.text = text.to_string();
         let (s2, c, r, allowed) = (stim.clone(), c.to_string(), r.to_string(), codes.to_vec());
         let _ = &allowed;
-        match fresh_thread(STACK_64M, move || run_config(&d2, &s2, &c, &r, false, None)) {
+        match fresh_thread(STACK_64M, move || run_config(&d2, &s2, &c, &r, fault, None)) {
             Ok(o) => o.status == "ok" && o.cmp.mismatch.is_none() && o.cmp.compared > 0,
             Err(_) => false,
         }
@@ -196,7 +196,7 @@ fn attribute(d: &Design, stim: &Stimulus, cfg: &str, codes: &[String]) -> Vec<St
         let (s2, c2, r2) = (stim.clone(), c.to_string(), r.to_string());
         let ok = match fresh_thread(STACK_64M, move || {
             svref::sim::set_emulation(flags);
-            run_config(&d2, &s2, &c2, &r2, false, None)
+            run_config(&d2, &s2, &c2, &r2, fault, None)
         }) {
             Ok(o) => o.status == "ok" && o.cmp.mismatch.is_none() && o.cmp.compared > 0,
             Err(_) => false,
@@ -229,7 +229,7 @@ fn attribute(d: &Design, stim: &Stimulus, cfg: &str, codes: &[String]) -> Vec<St
     vec![]
 }
 
-fn report(run: &Run, i: u64, cycles: usize, o: CaseOut) {
+fn report(run: &Run, i: u64, cycles: usize, o: CaseOut, fault: bool) {
     let d = &o.design;
     let mut ok_cfgs = 0;
     let mut unsupported_here = false;
@@ -264,12 +264,12 @@ fn report(run: &Run, i: u64, cycles: usize, o: CaseOut) {
                             let classes = match &attributed {
                                 Some(k) => k.clone(),
                                 _ => {
-                                    let k = attribute(d, &o.stim, &c.cfg, &c.codes);
+                                    let k = attribute(d, &o.stim, &c.cfg, &c.codes, fault);
                                     attributed = Some(k.clone());
                                     k
                                 }
                             };
-                            let sigs: Vec<String> = if classes.is_empty() { vec![format!("trace-mismatch:unattributed:case{i}")] } else { classes.iter().map(|k| format!("trace-mismatch:{k}")).collect() };
+                            let sigs: Vec<String> = if classes.is_empty() { vec![format!("trace-mismatch:unattributed:seed{}:{}:case{i}", run.seed(), run.args.tier)] } else { classes.iter().map(|k| format!("trace-mismatch:{k}")).collect() };
                             run.count(if classes.is_empty() { "mismatches_unattributed" } else { "mismatches_attributed_to_known_class" }, 1);
                             for sig in sigs {
                             run.violation(
@@ -374,7 +374,7 @@ pub fn main(args: Args) {
                 run2.count("cases_panicked", 1);
                 run2.note(format!("case {i}: panic at {}: {}", p.location, first_line(&p.message)));
             }
-            Ok(o) => report(&run2, i, cycles, o),
+            Ok(o) => report(&run2, i, cycles, o, fault),
         }
     });
     // svref-unsupported share: more than half of the generated designs unsupported → inconclusive
